@@ -7,6 +7,7 @@ import Driver.Span
 import Driver.Lines
 import Driver.Html
 import Driver.Tree
+import Driver.Toc
 open Lean
 
 def dispatch (op : String) (j : Json) : Except String Json :=
@@ -17,6 +18,7 @@ def dispatch (op : String) (j : Json) : Except String Json :=
   | "escape" => Driver.Html.escapeOp j
   | "traverse" => Driver.Tree.traverseOp j
   | "ast.get" => Driver.Tree.getAstOp j
+  | "toc.collect" => Driver.Toc.collectOp j
   | "ping" => pure (Json.str "pong")
   | _ => throw s!"unknown op {op}"
 
